@@ -241,6 +241,36 @@ def worker(job):
     return part.dump()
 
 
+def txlevel_worker(job):
+    """limits that only exist at the level of a spend: the 1000-element initial stack of a tapscript (the script, the control
+    block and the annex are not among the elements), built as real taproot spends and judged against full reference validation"""
+    bindir, idx = job
+    from checks import c03
+    rng = sub_rng(PROP, 'txlevel', idx)
+    part = Partial()
+    wd = scratch('c10t')
+    try:
+        scs = []
+        for i, sat in enumerate(['initial-stack-999', 'initial-stack-1000', 'initial-stack-1001', 'initial-stack-998-annex', 'initial-stack-1000-annex', 'initial-stack-1001-annex']):
+            sc = c03.build(rng, 'p2tr-script', sat)
+            sc['otype'], sc['sat'] = 'p2tr-script', sat
+            sc['flags'], sc['flagmod'] = STANDARD, 'standard'
+            sc['select'] = -1
+            sc['id'] = 'tx%d.%d' % (idx, i)
+            scs.append(sc)
+        events, crashes, hangs = run_harness_cases(bindir, [(sc['id'], c03.scenario_cmds(sc['id'], sc, sc['select'])) for sc in scs], wd)
+        for cr in crashes:
+            part.violation('txlevel:crash:' + cr.key, dict(id=cr.case_id, log=cr.log[-1500:]))
+        for sc in scs:
+            before = len(part.violations)
+            c03.judge(sc, c03.parse_events(events.get(sc['id'], [])), part)
+            part.violations[before:] = [('stack1000/tapscript-spend:' + k, w) for k, w in part.violations[before:]]
+            part.count('matrix', 'stack1000/tapscript-spend/%s' % sc['sat'])
+    finally:
+        cleanup_scratch(wd)
+    return part.dump()
+
+
 def main():
     ap = argparse.ArgumentParser()
     ap.add_argument('--tier', default=os.environ.get('VERIF_TIER', 'quick'))
@@ -257,12 +287,15 @@ def main():
         jobs += [(bindir, 'perturb', i, 60) for i in range(16)]
     for r in parallel(worker, jobs):
         rep.merge(r)
+    for r in parallel(txlevel_worker, [(bindir, i) for i in range(2 if a.tier == 'quick' else 16)]):
+        rep.merge(r)
     steps = rep.tables.get('step_events', {}).get('n', 0)
     for t in ('layer', 'ops_executed', 'sigversion', 'cont_runs'):
         rep.tables.pop(t, None)
     return rep.finish(
         rule='deterministic matrix limit x way-of-reaching x {L-1,L,L+1} x {base,v0,tapscript} (520-byte pushes, 1000 stack+altstack items, 201 counted ops incl. multisig key counts '
-             'and unexecuted branches and across scriptSig/scriptPubKey, 20 multisig keys, 10,000-byte scripts, 4-byte numeric and 5-byte lock-time operands) plus seeded random perturbations around each boundary; '
+             'and unexecuted branches and across scriptSig/scriptPubKey, 20 multisig keys, 10,000-byte scripts also as scriptPubKey, 4-byte numeric and 5-byte lock-time operands; the 1000-element initial stack of real tapscript spends with and without annex) plus seeded random perturbations around each boundary; '
+             'a quarter of the cases is run a second time "hovering" (every step taken, taken back, taken again) and must give the same trace; '
              'every case is judged step by step against the reference interpreter; non-trivial = distinct case (all of them sit on or next to a limit)',
         assumptions=['ref/script.py encodes the consensus limits; lock-time success paths (needing a transaction) are exercised by C02/C03'],
         extra={'step_events_compared': steps}, min_events=500, observed=steps)
